@@ -24,7 +24,7 @@ out = []
 seen = set()
 catalogue = {}
 budget = {("c01", "x"): 0, ("c04", "x"): 0, ("c07", "x"): 0, ("c02", "x"): 0, ("c03", "x"): 0, ("c16", "x"): 0, ("c17", "x"): 0, ("c18", "x"): 0}
-XMAX = {"c01": 1, "c04": 2, "c07": 2}
+XMAX = {"c01": 2, "c04": 3, "c07": 3}
 
 
 def components(n, code):
@@ -137,6 +137,8 @@ for g, q in ((34, 2), (42, 2), (290, 1), (137, 0)):
     h("c03", "t", "gr", "ds", "def", 3, g, [q], pres="du")
 
 # ------------------------------------------------------------------ C04 certificates
+# three components: the certificate must be completed on every other component (first, so that it is within the x budget)
+h("c04", "q", "co", "dc", "aux", 3, 0, [0])
 for g, q in ((0, 0), (2, 0), (6, 1), (14, 0)):
     h("c04", "q", "st", "dc", "def", 2, g, [q])
 for g, q in ((6, 0), (10, 0), (2, 1)):
